@@ -118,7 +118,7 @@ def enumerate_cases(tier, seed):
                     for pos in ("mid1", "mid4"):
                         cases.append({"program": program, "input": inp, "prior": prior, "rng": seed, "inplace": True,
                                       "fault": {"stage": "write_gro", "pos": pos, "exc": "RuntimeError"}})
-                for odd in ("dotdot", "symlink", "relative"):
+                for odd in ("dotdot", "symlink", "relative") + (("filelink",) if prior == "present" and program != "gen_seq" else ()):
                     cases.append({"program": program, "input": inp, "fault": None, "prior": prior, "rng": seed,
                                   "odd_path": odd})
                 # fault-free runs whose output name has another ending, or none
@@ -336,6 +336,14 @@ def _check(spec, ctx, other_tmp):
         (outdir / "sub").mkdir()
         if spec["odd_path"] == "dotdot":
             target_arg = outdir / "sub" / ".." / target.name
+        elif spec["odd_path"] == "filelink":
+            # the previous output is itself a symbolic link to a file kept elsewhere: the link is what gets
+            # the backup name, the file it points to is left alone
+            shared = ctx.dir / "shared"
+            shared.mkdir()
+            (shared / "ref.dat").write_bytes(sentinel)
+            target.unlink()
+            target.symlink_to(Path("..") / "shared" / "ref.dat")
         elif spec["odd_path"] == "relative":
             # the output is named relative to the working directory (the inputs live elsewhere)
             os.chdir(outdir)
@@ -399,6 +407,10 @@ def _check(spec, ctx, other_tmp):
         undo()
         os.chdir(cwd0)
     after = snapshot(outdir)
+    if spec.get("odd_path") == "filelink":
+        if snapshot(ctx.dir / "shared") != {"ref.dat": (len(sentinel), hashlib.sha256(sentinel).hexdigest())}:
+            raise Violation(f"{program}:file_behind_link_changed", f"the directory of the file the old output pointed to now "
+                                                                   f"holds {sorted(snapshot(ctx.dir / 'shared'))}")
     label = "no_fault" if not fault else f"{program}:{fault['stage']}:{fault['pos']}"
     if fault and not natural and state.get("unresolved"):
         if error is not None:
